@@ -204,7 +204,11 @@ struct ZSTD_seekTable_s {
     int checksumFlag;
 };
 
+#if defined(ZSTD_VERIF) && defined(ZSTD_VERIF_SEEKABLE_BUFF_SIZE)
+#  define SEEKABLE_BUFF_SIZE ZSTD_VERIF_SEEKABLE_BUFF_SIZE   /* verification build only: smaller staging buffers */
+#else
 #define SEEKABLE_BUFF_SIZE ZSTD_BLOCKSIZE_MAX
+#endif
 
 struct ZSTD_seekable_s {
     ZSTD_DStream* dstream;
@@ -424,7 +428,13 @@ static size_t ZSTD_seekable_loadSeekTable(ZSTD_seekable* zs)
             if (entries == NULL) return ERROR(memory_allocation);
 
             /* compute cumulative positions */
-            for (; idx < numFrames; idx++) {
+            for (; idx < numFrames; idx++)
+            ZSTD_VERIF_LOOP(
+                __CPROVER_assigns(idx, pos, cOffset, dOffset, remaining,
+                                  __CPROVER_object_whole(entries), __CPROVER_object_whole(zs->inBuff))
+                __CPROVER_loop_invariant(idx <= numFrames && pos <= SEEKABLE_BUFF_SIZE)
+                __CPROVER_decreases(numFrames - idx))
+            {
                 if (pos + sizePerEntry > SEEKABLE_BUFF_SIZE) {
                     U32 const offset = SEEKABLE_BUFF_SIZE - pos;
                     U32 const toRead = MIN(remaining, SEEKABLE_BUFF_SIZE - offset);
